@@ -39,7 +39,20 @@ fn distance(metric: DistanceMetric, a: &[f32], b: &[f32]) -> f32 {
 
 fn vec_from(seed: u64, dim: usize, spread: f32) -> Vec<f32> {
     let mut r = Rng::new(seed);
-    (0..dim).map(|_| bf16::from_f32((r.f32() - 0.5) * spread).to_f32()).collect()
+    // one stored vector in twelve is tiny (norm around 1e-4, far above the
+    // zero-vector guard of the cosine metric) or large: magnitude must not
+    // matter to an angle, and must scale the other metrics exactly
+    let scale = if spread == 2.0 {
+        match seed % 12 {
+            0 => 2.0f32.powi(-13),
+            1 => 2.0f32.powi(-11),
+            2 => 2.0f32.powi(9),
+            _ => 1.0,
+        }
+    } else {
+        1.0
+    };
+    (0..dim).map(|_| bf16::from_f32((r.f32() - 0.5) * spread * scale).to_f32()).collect()
 }
 
 /// live id -> set of vectors the harness knows this id may hold (1 normally;
@@ -154,6 +167,12 @@ fn queries(rng: &mut Rng, dim: usize, live: &BTreeMap<u64, Vec<f32>>) -> Vec<Vec
     q.push(vec![0.0; dim]);
     for v in live.values().take(2) {
         q.push(v.clone());
+    }
+    // the same directions at a very small magnitude
+    let tiny: Vec<f32> = vec_from(rng.next_u64() | 3, dim, 2.0).iter().map(|x| x * 2.0f32.powi(-14)).collect();
+    q.push(tiny);
+    if let Some(v) = live.values().next() {
+        q.push(v.iter().map(|x| x * 2.0f32.powi(-12)).collect());
     }
     q
 }
@@ -391,8 +410,45 @@ fn run_persist(seed: u64, dim: usize, metric: u8, ops: &[VOp], rep: &mut RunRepo
             }
             VOp::Reload => {
                 let st2 = storage_for(&store).map_err(|e| violation!("c12.setup", "storage connect failed: {e}"))?;
-                h = block(Hnsw::bootstrap("v".to_string(), st2)).map_err(|e| violation!("c12.load-error", "op#{i}: bootstrap failed: {e:?}"))?;
+                // two reloads in three meet one failing backend read (a transient
+                // error, not NotFound) somewhere in the bootstrap: it may refuse to
+                // open - and must then open on the next, fault-free attempt - but it
+                // must not come up with part of the committed vectors
+                let k = simcore::rng::derive(seed ^ (i as u64) << 20, "reload-read-fault") % 30;
+                let fired0: u64 = sim.fired().values().sum();
+                if k < 20 {
+                    sim.set_faults(vec![simcore::FaultSpec { site: simcore::Site::Call(sim.calls() + k), kind: simcore::FaultKind::FailBefore }]);
+                }
+                let r = block(Hnsw::bootstrap("v".to_string(), st2));
+                let fired = sim.fired().values().sum::<u64>() > fired0;
+                sim.clear_faults();
+                h = match r {
+                    Ok(h2) => {
+                        if fired {
+                            rep.probe("bootstrap_survived_a_read_fault", 1);
+                        }
+                        h2
+                    }
+                    Err(e) if fired => {
+                        rep.probe("bootstrap_refused_on_read_fault", 1);
+                        rep.fire("read_error_in_bootstrap", 1);
+                        let st3 = storage_for(&store).map_err(|e| violation!("c12.setup", "storage connect failed: {e}"))?;
+                        block(Hnsw::bootstrap("v".to_string(), st3)).map_err(|e2| violation!("c12.load-error", "op#{i}: bootstrap failed on an injected read error ({e:?}) and again without any fault: {e2:?}"))?
+                    }
+                    Err(e) => return Err(violation!("c12.load-error", "op#{i}: bootstrap failed: {e:?}")),
+                };
                 model = committed.clone();
+                let n_el = h.stats().num_elements as usize;
+                if n_el != committed.len() {
+                    return Err(violation!("c12.load-dropped-vectors", "op#{i}: the flushed index holds {} vectors, the reloaded one {n_el} (read fault injected: {fired})", committed.len()));
+                }
+                let live: Live = committed.iter().map(|(id, v)| (*id, vec![v.clone()])).collect();
+                let mut qr = Rng::stream(seed ^ i as u64, "reload-queries");
+                for q in queries(&mut qr, dim, &committed) {
+                    let k = n_el + 1;
+                    let res = h.try_search(&q, k).map_err(|e| violation!("c12.search-error", "op#{i}: search after reload failed: {e:?}"))?;
+                    check_sound(&res, k, &q, metric_e, &live, &format!("after op#{i} Reload k={k}"))?;
+                }
             }
         }
     }
